@@ -235,6 +235,20 @@ pub fn run(ctx: &Ctx) -> Report {
         });
         rep.merge(r);
     }
+    // ---- a client that asks for TLS from a shim that offers none, and then waits: whatever the server
+    //      has to say to that (the unchanged library says nothing and ends the connection) is flushed
+    //      before the server reads again. In the build without the library's tls feature the refusal
+    //      is code of its own.
+    let n = if ctx.miri { 2 } else { ctx.n(400, 4000) };
+    let r = par_cases(ctx, "C12", "tls-requested-not-offered", n, |rng, i, rep| {
+        let (case, label) = ssl_refusal_case(rng, i);
+        let obs = run_case(&case);
+        rep.evaluations += 1;
+        rep.counters.class(label.clone());
+        let d = || ssl_refusal_detail(&case, &obs, &label);
+        check(&obs, rep, &d);
+    });
+    rep.merge(r);
     // ---- commands pipelined behind commands that have no reply, on connections whose read buffer has
     //      grown: an earlier command of 70 KB .. 1 MB, statements prepared and closed (the last open one
     //      too), long data, and the next command always in the same read as the CLOSE / long data in
